@@ -461,14 +461,15 @@ int Run::toolProgram(simos::ProcCtx& c) {
     c.write(2, "simulated failure\n");
     return finish(false, 1);
   }
-  if (mode == "signal") {
+  if (mode == "signal" || mode == "sigkill") {
     execs.push_back({buildNo, name, false, startSeq, seq});
-    ev("tool-end " + name + " signal");
-    c.dieBySignal(SIGSEGV);
+    ev("tool-end " + name + " " + mode);
+    // SIGKILL from outside the build (an out-of-memory killer, an impatient user): nobody cancelled anything
+    c.dieBySignal(mode == "sigkill" ? SIGKILL : SIGSEGV);
     return 0;
   }
   ReadFn rd = [this, &c](const std::string& p, std::string* out) -> bool {
-    std::string full = !p.empty() && p[0] == '/' ? p : c.cwd + "/" + p;
+    std::string full = !p.empty() && p[0] == '/' ? p : std::string(kWork) + "/" + p;   // declared names are relative to the build's directory, whatever the tool's own
     simfs::InodeP ino;
     if (simfs::fs().lookup(full, true, &ino) != 0 || ino->type != simfs::Inode::File) return false;
     *out = ino->data;
@@ -487,7 +488,7 @@ int Run::toolProgram(simos::ProcCtx& c) {
   for (size_t i = 0; i < cmd->outputs.size(); i++) {
     const std::string& o = cmd->outputs[i];
     if (isVirtualNode(o) || isDirNode(o)) continue;
-    std::string full = o[0] == '/' ? o : c.cwd + "/" + o;
+    std::string full = o[0] == '/' ? o : std::string(kWork) + "/" + o;
     int rc = simfs::fs().writeFile(full, mode == "partial" ? std::string("PARTIAL OUTPUT, TOOL DIED\n") : tr.outputs[i]);
     if (rc != 0) {
       simfs::fs().actor = oldActor;
@@ -515,6 +516,7 @@ int Run::toolProgram(simos::ProcCtx& c) {
     std::vector<std::string> listed = tr.discovered;
     // paths looked for but absent are reported too: their later creation must re-run the command
     for (auto& m : tr.missing) listed.push_back(m);
+    for (auto& l : listed) l = depSpelling(*cmd, l);
     std::string text;
     if (cmd->style == "dependency-info") {
       text = renderDependencyInfo(listed, {}, {});
@@ -527,7 +529,8 @@ int Run::toolProgram(simos::ProcCtx& c) {
       if (mode == "baddeps") text = "no-colon-here " + text.substr(text.find(':') == std::string::npos ? 0 : text.find(':') + 1);
       if (mode == "baddeps2") text = ": " + text;
     }
-    std::string full = cmd->deps[0] == '/' ? cmd->deps : c.cwd + "/" + cmd->deps;
+    // the dependency file lies in the command's working directory, and a Makefile-style one spells relative paths from there
+    std::string full = cmd->deps[0] == '/' ? cmd->deps : std::string(kWork) + (cmd->workdir.empty() ? "" : "/" + cmd->workdir) + "/" + cmd->deps;
     simfs::fs().mkdirs(full.substr(0, full.rfind('/')));
     simfs::fs().writeFile(full, text);
   }
@@ -790,7 +793,7 @@ void Run::opBuild(const Json& op) {
   for (auto& e : predictFail)
     if (e.second) anyPredictedFailure = true;
   // a target the description does not define is an error of its own (the shrinker can produce that)
-  if (!byNode && !desc.targets.count(target)) anyPredictedFailure = true;
+  if (!byNode && !desc.targets.count(target) && !(desc.targets.empty() && target.empty())) anyPredictedFailure = true;   // (a description without targets is written with an empty default target)
   // a target node nobody produces and that does not exist is an error of its own
   for (auto& n : roots)
     if (!desc.producer(n) && !isVirtualNode(n) && !stateOf(n).exists) anyPredictedFailure = true;
@@ -1148,7 +1151,11 @@ void Run::opBuild(const Json& op) {
     std::vector<std::string> want = tr.discovered;
     for (auto& m : tr.missing) want.push_back(m);
     std::multiset<std::string> wantSet, gotSet;
-    for (auto& p : want) wantSet.insert(c->style == "dependency-info" ? p : abs(p));
+    for (auto& p : want) {
+      std::string sp = depSpelling(*c, p);
+      // a Makefile-style relative path comes back joined to the working directory (not normalised), an absolute one as it is
+      wantSet.insert(c->style == "dependency-info" ? p : !sp.empty() && sp[0] == '/' ? sp : c->workdir.empty() ? abs(sp) : std::string(kWork) + "/" + c->workdir + "/" + sp);
+    }
     for (auto& d : discoveredThisBuild[c->name])
       if (d.second == 0) gotSet.insert(d.first);
     if (wantSet != gotSet) {
@@ -1683,6 +1690,12 @@ struct Gen {
         if (property == "C10" && rng.chance(250)) c.strictExtra = true;
         c.style = rng.chance(500) ? "makefile" : "dependency-info";
         if (rng.chance(100)) c.style = "makefile-ignoring-subsequent-outputs";
+        if ((property == "C08" || property == "C11" || property == "C09") && rng.chance(150)) {
+          // a working directory: the tool runs there, its dependency file lies there, and a Makefile-style dependency file
+          // spells relative paths from there
+          c.workdir = rng.chance(600) ? "wd0" : "wd0/in ner";
+          sources[c.workdir + "/.keep"] = "keeps the directory\n";
+        }
         // undeclared extra reads with interesting spellings (some of them absent at first)
         int nx = property == "C11" ? (int)rng.range(1, 3) : (int)rng.below(2);
         for (int k = 0; k < nx; k++) {
@@ -1827,8 +1840,11 @@ struct Gen {
   std::vector<std::string> stalePool() {
     std::string w = kWork;
     return {w + "/r/a.out", w + "/r/sub/b.o", w + "/rr/c.o", w + "/r2/d.o", w + "/other/e.o", w + "/r//f.o", "rel/g.o", w + "/r/dir1",
-            w + "/r/sub", w + "/r/sub/deep/h.o", w + "/r2", w + "/r/x y.o", "", w + "/r/a.out.extra", w + "/r2/sub/i.o", w + "/rr", w + "/r"};
+            w + "/r/sub", w + "/r/sub/deep/h.o", w + "/r2", w + "/r/x y.o", "", w + "/r/a.out.extra", w + "/r2/sub/i.o", w + "/rr", w + "/r",
+            // symbolic links: to a directory outside every root that holds a file, and to nothing
+            w + "/r/cur.lnk", w + "/r/gone.lnk"};
   }
+  static bool isStaleLink(const std::string& pth) { return pth.size() > 4 && pth.compare(pth.size() - 4, 4, ".lnk") == 0; }
   std::vector<std::string> rootPool() {
     std::string w = kWork;
     return {w + "/r", w + "/r/", w + "/r2", w + "/r/sub", w + "/r/sub/", w + "/rr/", w + "/r2//", w + "/r/sub/deep", w + "/r2/sub/", "/", w, w + "/"};
@@ -1862,12 +1878,14 @@ struct Gen {
       if (pth.empty()) continue;
       std::string rel = pth[0] == '/' ? pth.substr(strlen(kWork) + 1) : pth;
       if (rel == "r/dir1" || rel == "r/sub" || rel == "r2" || rel == "rr" || rel == "r") continue;   // these are directories
+      if (isStaleLink(rel)) continue;   // made by the first ops of the history
       if (rng.chance(850)) sources[rel] = "artifact " + std::to_string(counter++) + "\n";
     }
     sources["r/dir1/inner/k.o"] = "nested\n";
     sources["bystander.txt"] = "keep me\n";
     sources["r/keep.o"] = "keep me too\n";
     sources["rr/keep2.o"] = "keep\n";
+    sources["keepout/precious.txt"] = "behind a link, outside every root\n";
   }
 
   // ---- C12: a source tree consumed through a directory-tree / directory-structure node
@@ -2204,6 +2222,10 @@ struct Gen {
       if (property == "C04" && rng.chance(450)) op.set("kill", Json::obj().set("n", (int64_t)(rng.chance(300) ? rng.below(400) : rng.below(90))));
       hist.push(op);
     };
+    if (property == "C14" && rng.chance(600)) {
+      hist.push(Json::obj().set("op", "tree").set("kind", "symlink").set("path", util::hex("r/cur.lnk")).set("content", util::hex("../keepout")));
+      hist.push(Json::obj().set("op", "tree").set("kind", "symlink").set("path", util::hex("r/gone.lnk")).set("content", util::hex("nowhere")));
+    }
     addBuild();
     int nOps = (int)rng.range(2, opt.tier == "thorough" ? 9 : 6);
     std::vector<std::string> flagged;
@@ -2218,7 +2240,7 @@ struct Gen {
           // an artifact reappears (a later build step would have produced it)
           auto pool = stalePool();
           std::string pth = pool[rng.below(pool.size())];
-          if (!pth.empty() && pth.find("dir1") == std::string::npos && pth != std::string(kWork) + "/r/sub" && pth != std::string(kWork) + "/r2" && pth != std::string(kWork) + "/rr" && pth != std::string(kWork) + "/r")
+          if (!pth.empty() && !isStaleLink(pth) && pth.find("dir1") == std::string::npos && pth != std::string(kWork) + "/r/sub" && pth != std::string(kWork) + "/r2" && pth != std::string(kWork) + "/rr" && pth != std::string(kWork) + "/r")
             hist.push(Json::obj().set("op", "edit").set("path", util::hex(pth)).set("content", util::hex("again " + std::to_string(counter++) + "\n")));
         }
         addBuild();
@@ -2420,6 +2442,7 @@ struct Gen {
         static const char* modes[] = {"exit", "signal", "partial", "baddeps", "baddeps2"};
         std::string mode = modes[rng.below(property == "C11" ? 5 : 3)];
         if (property == "C10" && rng.chance(200)) mode = "spawn";   // posix_spawn itself fails
+        else if (property == "C10" && rng.chance(120)) mode = "sigkill";
         const Cmd* vc = desc.byName(victim);
         if ((mode == "baddeps" || mode == "baddeps2") && (!vc || vc->deps.empty())) mode = "exit";
         std::string firstFile;
